@@ -1,0 +1,82 @@
+//! Verification hooks, compiled only with `--cfg lzma_rs_verif`.
+//!
+//! A thread-local event recorder that the decoder layers feed at their
+//! linearization points (symbol committed, chunk header parsed, block
+//! verified, ...), plus accessors for constants that a specification bound to
+//! this code needs to know. Nothing here changes decoding behaviour.
+
+use std::cell::RefCell;
+
+/// One recorded event: a static name and up to eight scalar arguments.
+#[derive(Debug, Clone, PartialEq, Eq)]
+pub struct Event {
+    /// Name of the action (one per linearization point).
+    pub name: &'static str,
+    /// Scalar arguments; unused slots are zero.
+    pub args: [u64; 8],
+}
+
+thread_local! {
+    static LOG: RefCell<Option<Vec<Event>>> = const { RefCell::new(None) };
+}
+
+/// Start recording on this thread (drops anything recorded before).
+pub fn start() {
+    LOG.with(|l| *l.borrow_mut() = Some(Vec::new()));
+}
+
+/// Stop recording on this thread and return what was recorded.
+pub fn take() -> Vec<Event> {
+    LOG.with(|l| l.borrow_mut().take().unwrap_or_default())
+}
+
+/// Record an event (no-op unless [`start`] was called on this thread).
+pub fn emit(name: &'static str, args: &[u64]) {
+    LOG.with(|l| {
+        if let Some(v) = l.borrow_mut().as_mut() {
+            let mut a = [0u64; 8];
+            for (d, s) in a.iter_mut().zip(args.iter()) {
+                *d = *s;
+            }
+            v.push(Event { name, args: a });
+        }
+    });
+}
+
+/// Implementation constants a specification needs to be instantiated with.
+#[derive(Debug, Clone, Copy, PartialEq, Eq)]
+pub struct Constants {
+    /// `MAX_REQUIRED_INPUT` of the LZMA decoder loop.
+    pub max_required_input: usize,
+    /// `MAX_TMP_LEN` of the streaming decoder.
+    pub max_tmp_len: usize,
+    /// `MIN_HEADER_LEN` of the streaming decoder.
+    pub min_header_len: usize,
+    /// `MAX_HEADER_LEN` of the streaming decoder.
+    pub max_header_len: usize,
+    /// `START_BYTES` of the streaming decoder.
+    pub start_bytes: usize,
+}
+
+/// Read the implementation constants.
+pub fn constants() -> Constants {
+    Constants {
+        max_required_input: crate::decode::lzma::VERIF_MAX_REQUIRED_INPUT,
+        #[cfg(feature = "stream")]
+        max_tmp_len: crate::decode::stream::VERIF_CONSTS[0],
+        #[cfg(feature = "stream")]
+        min_header_len: crate::decode::stream::VERIF_CONSTS[1],
+        #[cfg(feature = "stream")]
+        max_header_len: crate::decode::stream::VERIF_CONSTS[2],
+        #[cfg(feature = "stream")]
+        start_bytes: crate::decode::stream::VERIF_CONSTS[3],
+        #[cfg(not(feature = "stream"))]
+        max_tmp_len: 0,
+        #[cfg(not(feature = "stream"))]
+        min_header_len: 0,
+        #[cfg(not(feature = "stream"))]
+        max_header_len: 0,
+        #[cfg(not(feature = "stream"))]
+        start_bytes: 0,
+    }
+}
